@@ -145,9 +145,10 @@ def handle : Sexp → Sexp
           | .list (.sym "ok" :: rest) => .list (.sym "ok" :: .sym (if na then "nonascii" else "ascii") :: rest)
           | e => e
       | .error e => sexpOfFrontErr e
+  | .list [.sym "recognise", .str text] => .sym (if recognise text then "yes" else "no")
   | .list [.sym "lex", .str text] =>
       match lex text with
-      | some toks => .list (.sym "ok" :: toks.map fun t => .str t.text)
+      | some toks => .list (.sym "ok" :: toks.map fun t => .list [.str t.kind, .str t.text])
       | none => .list [.sym "error"]
   | .list [.sym "echo", x] => x
   | _ => .sym "bad-op"
